@@ -79,6 +79,49 @@ def pres_diff(want, got, absent_may_become):
     return out
 
 
+def _dotted_first(code):
+    """a '.' not followed by a digit occurs before any bracket (extract_default cuts the value there)"""
+    inner = code[3:-3]
+    for i, ch in enumerate(inner):
+        if ch in "{[()]}":
+            return False
+        if ch == "." and not (i + 1 < len(inner) and inner[i + 1].isdigit()):
+            return True
+    return False
+
+
+def is_code(d):
+    return d is not None and d.get("t") == "str" and len(d["v"]) > 6 and d["v"].startswith("```") and d["v"].endswith("```") and d["v"] != "```(None)```"
+
+
+def code_breaks_roundtrip(kind, is_return, typ, code, edd):
+    """where a back-tick quoted code default does NOT survive one round trip today (measured matrix, DESIGN §6)"""
+    typ = typ or ""
+    quoted, bracket, dotted = "str" in typ, "[" in typ, _dotted_first(code)
+    if typ == "dict" or kind == "argparse":
+        return True
+    if kind == "class":
+        return (edd and dotted) or (not is_return and not bracket)
+    if kind in ("function", "method"):
+        if is_return:
+            return True
+        return (edd and (dotted or not quoted)) or (not edd and not bracket)
+    return edd and (dotted or not quoted)
+
+
+def code_breaks_stability(kind, is_return, typ, code, edd):
+    """where a code default makes the second and third emission differ (or the parse raise) today"""
+    typ = typ or ""
+    quoted, dotted = "str" in typ, _dotted_first(code)
+    if kind == "argparse":
+        return True
+    if kind == "class":
+        return edd and dotted
+    if kind in ("function", "method"):
+        return (not is_return) and edd and (dotted or not quoted)
+    return edd and typ in ("int", "float", "bool", "str", "complex")
+
+
 def zero_allowed(typ):
     return [ZERO[typ]] if typ in ZERO else []
 
@@ -195,13 +238,14 @@ class AstKindProp(Prop):
         if base in ("C01-untyped-entry", "C01-entry-without-prose"):
             return base.replace("C01", "AST")
         entries = [p for _, p in ir["params"]] + ([ir["returns"]] if ir["returns"] else [])
-        for p in entries:
+        for idx, p in enumerate(entries):
             d = p.get("default")
-            if d is not None and d["t"] == "str" and len(d["v"]) > 6 and d["v"].startswith("```") and d["v"].endswith("```") and d["v"] != "```(None)```":
+            is_ret = ir["returns"] is not None and idx == len(entries) - 1
+            if is_code(d) and self.code_breaks(c, is_ret, p.get("typ"), d["v"]):
                 return "AST-code-default"
-            if d is not None and d["t"] == "str" and (d["v"] == "" or "." in d["v"]):
+            if d is not None and d["t"] == "str" and (d["v"] == "" or _dotted_first("```" + d["v"] + "```")):
                 return "AST-empty-or-dotted-string-default"
-            if d is not None and "efaults" in (p.get("doc") or ""):
+            if d is not None and "efaults" in (p.get("doc") or "") and not G.has_own_default_sentence(p):
                 return "C17-D9-prose-mentions-defaults"
         if c["opts"].get("word_wrap") and _would_wrap(ir):
             return "C18-D20-wrapping-changes-content"
@@ -209,6 +253,9 @@ class AstKindProp(Prop):
 
     def classify_kind(self, c, fl):
         return None
+
+    def code_breaks(self, c, is_return, typ, code):
+        return code_breaks_roundtrip(self.kind, is_return, typ, code, c["opts"].get("emit_default_doc", True))
 
 
 def _would_wrap(ir, width=100):
